@@ -404,8 +404,14 @@ TakeH ==
      /\ stack' = Append(Below(1), Entry(Mk("H", <<>>, <<t.api>>), AdjRule(t.e), MConjT(t.m)))
      /\ last' = Call("H", <<>>, 1, "ok")
 \* .N : the library builds NrmRule(e); it must MEAN A^H A
+\* (exploration bound, not a rule of the library: TLC integers are 32-bit and the invariants square the matrix of every state
+\*  once more, so N is explored on operators whose entries stay below EntryCap - the narrow-integer multipliers 150 / 200 get one N)
+EntryCap == 1000
+SmallEntries(m) == \A i \in 1..Len(m) : \A j \in 1..Len(m[i]) : /\ m[i][j][1] <= EntryCap /\ m[i][j][1] >= 0 - EntryCap
+                                                                 /\ m[i][j][2] <= EntryCap /\ m[i][j][2] >= 0 - EntryCap
 TakeN ==
   /\ Step /\ "N" \in Calls /\ Len(stack) >= 1
+  /\ SmallEntries(stack[Len(stack)].m)
   /\ LET t == stack[Len(stack)] IN
      /\ stack' = Append(Below(1), Entry(Mk("N", <<>>, <<t.api>>), NrmRule(t.e), MMul(MConjT(t.m), t.m)))
      /\ last' = Call("N", <<>>, 1, "ok")
